@@ -37,24 +37,18 @@ def run_property(prop, tier, replay=None):
     if forb:
         log(f"[{prop}] forbidden constructs in development: {forb[:5]}")
 
-    # 3. correspondence
+    # 3. correspondence (one worker process per family: case generation runs the real code and is CPU bound)
     inputs = props.inputs_for(prop, tier, rng)
+    fam_names = list(cfg.get("families", []))
+    fam_seeds = {f: rng.randrange(1 << 30) for f in fam_names}
     fam_results = []
-    for fname in cfg.get("families", []):
-        fam = props.FAMILIES[fname]
-        need = [m.replace(".", "/") + ".vo" for m in fam.imports]
-        if any(not os.path.exists(os.path.join(common.COQ, n)) for n in need):
-            res = corr.FamilyResult(fname)
-            res.errors.append("model did not compile: " + ", ".join(need))
-        else:
-            try:
-                cases = list(fam.cases(inputs, rng))
-                res = corr.run_family(fam, cases)
-            except Exception as e:  # pylint: disable=broad-except
-                import traceback
-                res = corr.FamilyResult(fname)
-                res.errors.append("harness error: " + traceback.format_exc()[-1500:])
-        fam_results.append(res)
+    if fam_names:
+        import multiprocessing
+        ctx = multiprocessing.get_context("fork")
+        with ctx.Pool(min(len(fam_names), 6)) as pool:
+            fam_results = pool.starmap(_run_one_family, [(f, inputs, fam_seeds[f]) for f in fam_names])
+    for res in fam_results:
+        fname = res.name
         obligations.append({"kind": "correspondence", "name": fname, "discharged": res.ok,
                             "note": f"{res.cases} cases, {res.distinct_nontrivial} non-trivial, "
                                     f"{len(res.mismatches)} mismatches, {len(res.errors)} errors, {res.wall:.1f}s"})
@@ -150,6 +144,29 @@ def run_property(prop, tier, replay=None):
                           assumptions=cfg.get("assumptions", []))
     log(f"[{prop}] obligations {n_dis}/{n_obl} discharged; exit {exit_code}; wall {time.time() - t0:.1f}s")
     return exit_code
+
+
+def _run_one_family(fname, inputs, fseed):
+    from . import props
+    import time as _t
+    t0 = _t.time()
+    fam = props.FAMILIES[fname]
+    need = [m.replace(".", "/") + ".vo" for m in fam.imports]
+    if any(not os.path.exists(os.path.join(common.COQ, n)) for n in need):
+        res = corr.FamilyResult(fname)
+        res.errors.append("model did not compile: " + ", ".join(need))
+        return res
+    try:
+        cases = list(fam.cases(inputs, random.Random(fseed)))
+        res = corr.run_family(fam, cases)
+    except Exception:  # pylint: disable=broad-except
+        import traceback
+        res = corr.FamilyResult(fname)
+        res.errors.append("harness error: " + traceback.format_exc()[-1500:])
+    res.wall = _t.time() - t0
+    # keep the result small for pickling
+    res.mismatches = res.mismatches[:20]
+    return res
 
 
 def run_replay(prop, cfg, path):
